@@ -214,3 +214,43 @@ def field_bits(f):
         for lo, n in elem_ranges(f, i):
             s.update(range(lo, lo + n))
     return s
+
+
+# ---- enums in Coq ------------------------------------------------------------------------------
+
+def coq_discr(v):
+    if v.get('discr_text') is not None:
+        t = v['discr_text'].replace('_', '')
+        try:
+            if t.lower().startswith('0x'):
+                return '(DLitN %d)' % int(t, 16)
+            if t.lower().startswith('0b'):
+                return '(DLitN %d)' % int(t, 2)
+            if t.lower().startswith('0o'):
+                return '(DLitN %d)' % int(t, 8)
+            if t.isdigit():
+                return '(DLitN %d)' % int(t)
+        except ValueError:
+            pass
+        return 'DNonLit'
+    if v.get('discr') is None:
+        return 'DMissing'
+    return '(DLitN %d)' % v['discr']
+
+
+def coq_enum(d):
+    exh = {None: 'None', 'true': '(Some ExTrue)', 'false': '(Some ExFalse)', 'conditional': '(Some ExConditional)'}[d.get('exh')]
+    vs = []
+    for v in d['variants']:
+        cfg = v.get('cfg') is not None
+        live = v.get('cfg') != 'any'
+        vs.append('(mkVariant %s %s %s %s)' % (cstr(v['name']), coq_discr(v), coq_bool(cfg), coq_bool(live)))
+    return '(mkEnum %s %d %s [%s])' % (cstr(d['name']), d['bits'], exh, '; '.join(vs))
+
+
+def discr_value(v):
+    """numeric value of a variant's literal discriminant"""
+    if v.get('discr') is not None:
+        return v['discr']
+    t = (v.get('discr_text') or '').replace('_', '')
+    return int(t, 0)
